@@ -53,6 +53,7 @@ class Event:
         self.pc: Tuple[Conj, ...] = tuple(ctx.pc)
         self.loops: Tuple[Tuple[Any, ...], ...] = tuple(ctx.loops)
         self.tries: Tuple[TryInfo, ...] = tuple(ctx.tries)
+        self.else_of: Tuple[TryInfo, ...] = tuple(ctx.else_of)   # try statements whose else-block contains the event
         self.withs: Tuple[Term, ...] = tuple(ctx.withs)
         self.func = ctx.fi.qualname
         self.file = ctx.fi.module.path
@@ -94,6 +95,7 @@ class Ctx:
         self.pc: List[Conj] = []
         self.loops: List[Tuple[Any, ...]] = []
         self.tries: List[TryInfo] = []
+        self.else_of: List[TryInfo] = []
         self.withs: List[Term] = []
         self.chain: Tuple[Tuple[str, int], ...] = ()
         self.depth = depth
@@ -107,6 +109,7 @@ class Ctx:
         c.pc = list(self.pc)
         c.loops = list(self.loops)
         c.tries = list(self.tries)
+        c.else_of = list(self.else_of)
         c.withs = list(self.withs)
         c.chain = self.chain + ((self.fi.qualname, line),)
         return c
@@ -121,6 +124,8 @@ class Summary:
         self.unknown = unknown     # constructs the walker did not model (analysis left the fragment)
         self.tests: Dict[int, Term] = {}    # id(If/While node) -> normalised test
         self.iters: Dict[int, Term] = {}    # id(For node) -> normalised iteration domain
+        self.falls = True                   # can execution run off the end of the body (implicit `return None`)?
+        self.end_pc: Tuple[Conj, ...] = ()  # the conditions under which it does
 
     def of_kind(self, *kinds: str) -> List[Event]:
         return [e for e in self.events if e.kind in kinds]
@@ -270,6 +275,7 @@ class _Run:
         self._read_n = 0
         self.builders: Dict[Term, List[Tuple[Term, Tuple[Any, ...], Tuple[Conj, ...]]]] = {}
         self.dirty: Set[Term] = set()
+        self.seeds: Dict[Term, Term] = {}      # seeded builders: container identity -> initial (fresh) list value
         self.tests: Dict[int, Term] = {}
         self.iters: Dict[int, Term] = {}
 
@@ -278,10 +284,12 @@ class _Run:
         fi = self.fi
         scope = self.param_scope(fi, None)
         self.cur = Ctx(fi, scope, 0)
-        self.block(func_body(fi))
+        out = self.block(func_body(fi))
         for i, e in enumerate(self.events):
             e.seq = i
         sm = Summary(fi, self.events, self.norm, scope, self.unknown)
+        sm.falls = "fall" in out
+        sm.end_pc = tuple(self.cur.pc) if sm.falls else ()
         sm.tests = self.tests
         sm.iters = self.iters
         return sm
@@ -414,22 +422,53 @@ class _Run:
 
     def inline_transparent(self, callee: FuncInfo, f: Term, args: List[Term], kwargs: List[Tuple[str, Term]], line: int) -> Optional[Term]:
         ctx = self.cur
-        n_pc = len(ctx.pc)
+        # the call site's own context: enclosing comprehensions and short-circuit guards become loops / conditions of the callee
+        n_pc = len(ctx.pc) + len(self.norm.guard_stack) + sum(len(conds) for _d, conds in self.norm.comp_stack)
+        n_loops = len(ctx.loops) + len(self.norm.comp_stack)
         captured: List[Event] = []
         ok = self.inline(callee, f, args, kwargs, line, None, transparent=True, captured=captured)
         if not ok:
             return None
-        # value of the helper: its returns folded into one conditional term (conditions relative to the call site)
+        # value of the helper: its returns folded into one conditional term (conditions relative to the call site).
+        # Returns inside a loop of the helper make a first-match search: ("first", domain, ((condition, value), ...), default) -
+        # the value for the first element satisfying one of the exit conditions, else the value of the code after the loop.
         val: Optional[Term] = None
+        pending: Optional[Tuple[Any, List[Tuple[Term, Term]], List[Term]]] = None
+        provs = ("branch", "handler", "loopcond", "filter")
+
+        def flush() -> None:
+            nonlocal val, pending
+            if pending is None:
+                return
+            loop, exits, outer_rel = pending
+            fv: Term = ("first", loop[1], tuple(exits), val if val is not None else C(None))
+            cond = mk_and(outer_rel)
+            val = fv if (val is None or cond == C(True)) else self.norm.mk_ife(cond, fv, val)
+            pending = None
+
         for r in reversed(captured):
-            rel = [c.term for c in r.pc[n_pc:] if c.prov in ("branch", "handler", "loopcond", "filter")]
+            rl = r.loops[n_loops:]
+            if rl:
+                if len(rl) != 1 or rl[0][0] not in ("for", "comp"):
+                    return ("opaque", "return inside a loop of %s" % callee.name)
+                loop = rl[0]
+                mark = max(loop[3], n_pc)
+                inner = mk_and([c.term for c in r.pc[mark:]])
+                outer_rel = [c.term for c in r.pc[n_pc:mark] if c.prov in provs]
+                if pending is not None and pending[0] == loop:
+                    pending[1].insert(0, (inner, r.term))
+                else:
+                    flush()
+                    pending = (loop, [(inner, r.term)], outer_rel)
+                continue
+            flush()
+            rel = [c.term for c in r.pc[n_pc:] if c.prov in provs]
             cond = mk_and(rel)
-            if r.loops[len(ctx.loops):]:
-                return ("opaque", "return inside a loop of %s" % callee.name)
             if val is None or cond == C(True):
                 val = r.term
             else:
                 val = self.norm.mk_ife(cond, r.term, val)
+        flush()
         return val if val is not None else C(None)
 
     def inline(self, callee: FuncInfo, f: Term, args: List[Term], kwargs: List[Tuple[str, Term]], line: int, ev: Optional[Event],
@@ -478,6 +517,16 @@ class _Run:
                 scope.types[p] = ty
                 if self.norm.type_of(v, ctx.scope) is None and v[0] != "c":
                     self.norm.var_types[v] = ty
+        heap_map: Dict[str, str] = {}
+        if transparent and self.heap:
+            # remembered attribute stores travel with the objects handed to a transparent helper (and back)
+            for p, v in bound.items():
+                if v[0] == "v":
+                    heap_map[p] = v[1]
+                    pre = "@%s." % v[1]
+                    for k_, hv in list(ctx.scope.env.items()):
+                        if k_.startswith(pre):
+                            scope.env["@%s.%s" % (p, k_[len(pre):])] = hv
         saved = self.cur
         self.cur = ctx.child(callee, scope, line)
         if self.norm.guard_stack:
@@ -510,6 +559,11 @@ class _Run:
             self.cur = saved
             self.norm.comp_stack = saved_stack
             self.norm.guard_stack = saved_guards
+        for p, name in heap_map.items():
+            pre = "@%s." % p
+            for k_, hv in list(scope.env.items()):
+                if k_.startswith(pre):
+                    ctx.scope.env["@%s.%s" % (name, k_[len(pre):])] = hv
         return True
 
     # ------------------------------------------------------------------ statements
@@ -602,22 +656,58 @@ class _Run:
             return
         self.unknown.append("%s:%d assignment target %s" % (self.cur.fi.module.path, line, type(tgt).__name__))
 
-    def _fresh_container(self, v: Term) -> Term:
-        """a newly created empty mutable container gets an identity, so two local sets are not confused."""
+    def _fresh_container(self, v: Term, name: Optional[str] = None, st: Optional[ast.stmt] = None) -> Term:
+        """a newly created empty mutable container gets an identity, so two local sets are not confused. A non-empty fresh list that
+        is only extended by appends in a later loop (`xs = list(a); for ..: xs.append(e)`) is a seeded builder: seed ++ [e for ..]."""
         kind = None
         if v[0] == "call" and v[1][0] == "g" and v[1][1] in ("builtin:set", "builtin:list", "builtin:dict") and not v[2] and not v[3]:
             kind = v[1][1][8:]
         elif v in (("list", ()), ("dict", ()), ("set", ())):
             kind = v[0]
+        seed = None
+        if kind is None and name is not None and self._is_fresh_list(v) and self._appended_in_later_loop(name, st):
+            kind, seed = "list", v
         if kind is None:
             return v
         self._new_n += 1
-        return ("new", kind, self._new_n, tuple(l[1] for l in self.cur.loops))
+        X = ("new", kind, self._new_n, tuple(l[1] for l in self.cur.loops))
+        if seed is not None:
+            self.seeds[X] = seed
+        return X
+
+    @staticmethod
+    def _is_fresh_list(v: Term) -> bool:
+        if v[0] == "call" and v[1] in (("g", "builtin:list"), ("g", "builtin:sorted")) and len(v[2]) == 1:
+            return True
+        return (v[0] == "list" and bool(v[1])) or (v[0] == "comp" and v[1] == "list")
+
+    def _appended_in_later_loop(self, name: str, st: Optional[ast.stmt]) -> bool:
+        """syntactic: `name` is assigned once in the function and every `name.append(..)` occurs inside a for loop that does not
+        contain the assignment"""
+        node = self.cur.fi.node
+        n_assign = 0
+        for n in ast.walk(node):
+            if isinstance(n, (ast.Assign, ast.AnnAssign, ast.AugAssign)):
+                if name in assigned_names([n]):
+                    n_assign += 1
+            elif isinstance(n, (ast.For, ast.comprehension)) and name in assigned_names(
+                    [ast.Assign(targets=[n.target], value=ast.Constant(0), lineno=0)]):
+                n_assign += 1
+        if n_assign != 1:
+            return False
+        is_app = lambda c: (isinstance(c, ast.Call) and isinstance(c.func, ast.Attribute) and c.func.attr == "append"   # noqa
+                            and isinstance(c.func.value, ast.Name) and c.func.value.id == name)
+        total = sum(1 for c in ast.walk(node) if is_app(c))
+        inside: Set[int] = set()
+        for loop in ast.walk(node):
+            if isinstance(loop, ast.For) and not any(x is st for x in ast.walk(loop)):
+                inside.update(id(c) for c in ast.walk(loop) if is_app(c))
+        return total > 0 and len(inside) == total
 
     def s_Assign(self, st: ast.Assign) -> Set[str]:
         v = self.N(st.value)
         if len(st.targets) == 1 and isinstance(st.targets[0], ast.Name):
-            v = self._fresh_container(v)
+            v = self._fresh_container(v, st.targets[0].id, st)
         for t in st.targets:
             self.assign_target(t, v, st.lineno)
         return {"fall"}
@@ -627,7 +717,7 @@ class _Run:
             return {"fall"}
         v = self.N(st.value)
         if isinstance(st.target, ast.Name):
-            v = self._fresh_container(v)
+            v = self._fresh_container(v, st.target.id, st)
         ann = self.w.typer.parse_ann(st.annotation, self.cur.fi.module, self.cur.fi)
         self.assign_target(st.target, v, st.lineno, ann)
         return {"fall"}
@@ -692,20 +782,29 @@ class _Run:
         ctx.pc = base_pc + [Conj(cond, "branch", st.lineno)]
         out_t = self.block(st.body)
         env_t = dict(ctx.scope.env)
+        extra_t = list(ctx.pc[len(base_pc) + 1:])      # what survived jumps inside the branch
         # false branch
         ctx.scope.env = dict(base_env)
         ncond = mk_not(cond)
         ctx.pc = base_pc + [Conj(ncond, "branch", st.lineno)]
         out_f = self.block(st.orelse) if st.orelse else {"fall"}
         env_f = dict(ctx.scope.env)
+        extra_f = list(ctx.pc[len(base_pc) + 1:])
         # merge
         t_falls, f_falls = "fall" in out_t, "fall" in out_f
         ctx.scope.env = self._merge_env(cond, base_env, env_t if t_falls else None, env_f if f_falls else None)
         ctx.pc = base_pc
         if not t_falls and f_falls:
-            ctx.pc = base_pc + [Conj(ncond, self._leave_prov(out_t), st.lineno)]
+            ctx.pc = base_pc + [Conj(ncond, self._leave_prov(out_t), st.lineno)] + extra_f
         elif t_falls and not f_falls:
-            ctx.pc = base_pc + [Conj(cond, self._leave_prov(out_f), st.lineno)]
+            ctx.pc = base_pc + [Conj(cond, self._leave_prov(out_f), st.lineno)] + extra_t
+        elif t_falls and f_falls and (extra_t or extra_f):
+            # both fall, but a nested jump removed part of a branch: (cond and survived_t) or (not cond and survived_f)
+            provs = {c.prov for c in extra_t + extra_f}
+            prov = provs.pop() if len(provs) == 1 else next(p_ for p_ in ("ret-surv", "break-surv", "cont-surv", "raise-surv", "branch") if p_ in provs or p_ == "branch")
+            tt = mk_and([cond] + [c.term for c in extra_t])
+            ff = mk_and([ncond] + [c.term for c in extra_f])
+            ctx.pc = base_pc + [Conj(mk_or([tt, ff]), prov, st.lineno)]
         return out_t | out_f
 
     def _havoc(self, names: Set[str]) -> None:
@@ -713,7 +812,9 @@ class _Run:
         for n in names:
             if n in env:
                 ty = self.norm.type_of(env[n], self.cur.scope) or self.cur.scope.var_type(n)
+                old = env[n]
                 env[n] = self.norm.fresh_lv(n)
+                self.norm.lv_init[env[n]] = old      # the value the name had when the loop (or handler) was entered / left
                 if ty is not None:
                     self.norm.var_types[env[n]] = ty   # a loop-carried variable keeps the type of its initial value
 
@@ -811,11 +912,15 @@ class _Run:
             if len(X[3]) != depth:
                 continue
             del self.builders[X]
-            if X in self.dirty or not recs or any(len(r[1]) <= depth for r in recs):
-                continue
-            if any(tuple(l[1] for l in r[1][:depth]) != X[3] for r in recs):
-                continue
-            term = self._comp_from(X, recs, depth)
+            term: Optional[Term] = None
+            if not (X in self.dirty or not recs or any(len(r[1]) <= depth for r in recs)) \
+                    and not any(tuple(l[1] for l in r[1][:depth]) != X[3] for r in recs):
+                term = self._comp_from(X, recs, depth)
+            seed = self.seeds.pop(X, None)
+            if term is not None and seed is not None:
+                term = ("cat", tuple((list(seed[1]) if seed[0] == "cat" else [seed]) + [term]))
+            elif term is None and seed is not None:
+                term = seed          # not the builder idiom after all: the name keeps denoting its initial value (mutations are events)
             if term is None:
                 continue
             env = ctx.scope.env
@@ -938,7 +1043,9 @@ class _Run:
         ctx.tries.pop()
         if st.orelse:
             out_b.discard("fall")
+            ctx.else_of.append(ti)
             out_b |= self.block(st.orelse)
+            ctx.else_of.pop()
         env_after_body = dict(ctx.scope.env)
         out = set(out_b)
         catches_all = any(t is None or any(x in ("Exception", "BaseException") for x in t) for t, _ in handlers)
@@ -994,6 +1101,18 @@ def _as_load(node: ast.AST) -> ast.AST:
 
 
 # --------------------------------------------------------------------------- queries on events
+def after_completion(ev: Event, ret: Event) -> bool:
+    """`ret` is only reached when the call `ev` inside a try body completed normally: later in the same try body under the same
+    conditions, or in the else-block of that try statement."""
+    if not ev.tries or ev.seq >= ret.seq:
+        return False
+    if [c.term for c in ev.pc] != [c.term for c in ret.pc][:len(ev.pc)]:
+        return False
+    if ev.tries == ret.tries and len(ev.pc) == len(ret.pc):
+        return True
+    return ev.tries[:-1] == ret.tries and ev.tries[-1] in ret.else_of and len(ev.pc) == len(ret.pc)
+
+
 def exc_class(ev: Event) -> str:
     if ev.kind == "assert":
         return "AssertionError"
